@@ -252,6 +252,12 @@ def gen_master_ast(rng, feats):
         if rng.random() < 0.4:
             items.append(("unknown", rng.choice(["#EXT-X-FOO", "#EXT-X-BAR:1,2", "#EXT-X-CUSTOM:A=\"b,c\"", "#EXTFOO"]))); hit("unknown-tag")
     rng.shuffle(items)
+    if rng.random() < 0.25:
+        # a variant stream listed twice, attribute for attribute: two entries in the result, in place
+        import copy
+        vs = [it for it in items if it[0] == "variant"]
+        if vs:
+            items.insert(rng.randint(0, len(items)), copy.deepcopy(rng.choice(vs))); hit("variant-repeated")
     for kind, x in items:
         if kind == "media": a["media"].append(x)
         elif kind == "variant": a["variants"].append(x)
@@ -448,6 +454,14 @@ def gen_media_ast(rng, feats, k1=False, k8=False):
             tags.insert(rng.randint(0, len(tags)), ("unknown", u)); a["unknown"].append(u); hit("unknown-tag")
         s["tags"] = tags
         a["segments"].append(s)
+        if "range" not in s and rng.random() < 0.1 and i + 1 < n:
+            # the same segment once more, tag for tag (a live playlist repeating a slate): it is a second segment, not a duplicate to drop
+            import copy
+            s2 = copy.deepcopy(s); s2["events"] = []
+            for kind, x in s2["tags"]:
+                if kind == "unknown":
+                    a["unknown"].append(x)
+            a["segments"].append(s2); hit("segment-repeated")
     if rng.random() < 0.5:
         a["end"] = True; a["tail"].append(("end", None)); hit("ENDLIST")
     if rng.random() < 0.15:
